@@ -32,6 +32,8 @@ def gen(tier, rng, harness=None):
             lines.append("!flags.rt di %d" % v)
         for v in range(0, 64):
             lines += ["flags.alloc %d" % v, "!flags.rt alloc %d" % v]
+    # keywords in situ: a FloatType that was printed as one kind prints its current kind after an edit (all ordered pairs of the 6 kinds)
+    lines += ["!kw.floathist %d %d" % (a, b) for a in range(6) for b in range(6)]
     n = 300 if tier == "quick" else 20000
     for _ in range(n):
         for ty, bits in (("disp", disp_bits), ("di", di_bits), ("alloc", alloc_bits)):
